@@ -125,7 +125,8 @@ wuffs_private_impl__io_reader__set(wuffs_base__io_buffer* b,
   *ptr_iop_r = data.ptr;
   *ptr_io0_r = data.ptr;
   *ptr_io1_r = data.ptr;
-  *ptr_io2_r = data.ptr + data.len;
+  // Avoid undefined behavior (arithmetic on a NULL pointer) for an empty slice.
+  *ptr_io2_r = data.ptr ? (data.ptr + data.len) : NULL;
 
   return b;
 }
@@ -499,7 +500,8 @@ wuffs_private_impl__io_writer__set(wuffs_base__io_buffer* b,
   *ptr_iop_w = data.ptr;
   *ptr_io0_w = data.ptr;
   *ptr_io1_w = data.ptr;
-  *ptr_io2_w = data.ptr + data.len;
+  // Avoid undefined behavior (arithmetic on a NULL pointer) for an empty slice.
+  *ptr_io2_w = data.ptr ? (data.ptr + data.len) : NULL;
 
   return b;
 }
